@@ -18,10 +18,10 @@ import (
 // Model/Fmt.lean; their text is pinned here.
 
 // sha1 of the printed text of the formatter's type, constructors and helpers as modelled
-const fmtHelpersPin = "4e14788f2faa15a3e9c9bd88d3936f347f6c9c5f"
+const fmtHelpersPin = "a9be0534c020ec6876d139da8460068de2d1a9c9"
 
 var fmtHelperNames = []string{"NewFormatter", "WithState", "WithIndent", "addFreeFloating", "addIndent", "resetFreeFloating",
-	"getFreeFloating", "newToken", "formatList", "formatStmts", "newSemicolonTkn", "insert"}
+	"getFreeFloating", "newToken", "formatList", "formatStmts", "newSemicolonTkn", "insert", "heredocLabel", "heredocOpener"}
 
 type fi struct {
 	op   string // Lean constructor with scalar arguments already rendered
@@ -490,6 +490,31 @@ func (t *fmtTr) stmt(st ast.Stmt) []fi {
 		l, r := s.Lhs[0], s.Rhs[0]
 		// locals
 		if id, ok := l.(*ast.Ident); ok {
+			// label := heredocLabel(n.F)   /   open [:]= heredocOpener(label, nowdoc)
+			if ce, ok := r.(*ast.CallExpr); ok {
+				switch nodeText(ce.Fun) {
+				case "heredocLabel":
+					if len(ce.Args) == 1 && s.Tok == token.DEFINE {
+						if f, so, ok := t.field(ce.Args[0]); ok && so == sortTok {
+							t.regs[id.Name] = len(t.regs)
+							return one(fmt.Sprintf(".setRegLabel %d %d", t.regs[id.Name], f))
+						}
+					}
+				case "heredocOpener":
+					if len(ce.Args) == 2 {
+						if src, ok := ce.Args[0].(*ast.Ident); ok {
+							if r2, ok := t.regs[src.Name]; ok && (nodeText(ce.Args[1]) == "true" || nodeText(ce.Args[1]) == "false") {
+								if s.Tok == token.DEFINE {
+									t.regs[id.Name] = len(t.regs)
+								}
+								if reg, ok := t.regs[id.Name]; ok {
+									return one(fmt.Sprintf(".setRegOpener %d %d %s", reg, r2, nodeText(ce.Args[1])))
+								}
+							}
+						}
+					}
+				}
+			}
 			if lit, ok := byteLit(r); ok {
 				if s.Tok == token.DEFINE {
 					t.regs[id.Name] = len(t.regs)
@@ -778,6 +803,7 @@ func genFmtCode(c *ctx, s *schema) {
 	nop, html := s.byName["StmtNop"], s.byName["StmtInlineHtml"]
 	fmt.Fprintf(&b, "def fmtHtmlKind : Nat := %d\ndef fmtNopKind : Nat := %d\ndef fmtNopFields : Nat := %d\ndef fmtNopSemi : Nat := %d\n", html, nop, len(s.Kinds[nop].Fields), s.Kinds[nop].fieldIndex("SemiColonTkn"))
 	fmt.Fprintf(&b, "def fmtTWs : Nat := %d\ndef fmtTOpenTag : Nat := %d\n", tokNum["token.T_WHITESPACE"], tokNum["token.T_OPEN_TAG"])
+	fmt.Fprintf(&b, "def fmtTInc : Nat := %d\ndef fmtTDec : Nat := %d\n", tokNum["token.T_INC"], tokNum["token.T_DEC"])
 	fmt.Fprintf(&b, "def fmtInstructionCount : Nat := %d\n", total)
 	b.WriteString("\nend PhpVerif.Gen\n")
 	writeIfChanged(filepath.Join(c.out, "FmtCode.lean"), b.String())
